@@ -65,6 +65,7 @@ func cmdCheck(args []string) {
 	prop := fs.String("prop", "", "property id")
 	tier := fs.String("tier", "quick", "quick|thorough")
 	evPath := fs.String("evidence", "", "evidence file")
+	closure := fs.Bool("closure", true, "also prove the contracts of the repository callees the selected functions rely on")
 	knownPath := fs.String("known", "/verif/known_findings.json", "known findings file")
 	outDir := fs.String("out", "", "output dir")
 	level := fs.String("level", "proof", "evidence level")
@@ -141,8 +142,33 @@ func cmdCheck(args []string) {
 	var funcsUnder, assumedContracts, notes []string
 	noteSet := map[string]bool{}
 	frByKey := map[string]*FuncResult{}
+	// callee closure: a function's proof applies the contracts of the repository functions it calls; those
+	// contracts are proved in the same check (all their obligations), whatever properties they are tagged with -
+	// otherwise a change inside a callee would only be noticed by the check of the property its contract happens to name
+	viaClosure := map[string]bool{}
+	inKeys := map[string]bool{}
 	for _, k := range keys {
+		inKeys[k] = true
+	}
+	knownAnywhere := map[string]bool{}
+	for _, kf := range known.Findings {
+		knownAnywhere[kf.Obligation] = true
+	}
+	var closureSkipped []string
+	for ki := 0; ki < len(keys); ki++ {
+		k := keys[ki]
 		fr := eng.verifyFunc(k)
+		if *closure {
+			for _, ck := range fr.Callees {
+				cc := eng.cs.Funcs[ck]
+				if cc == nil || cc.Iface || cc.Assumed != "" || cc.Inline || inKeys[ck] {
+					continue
+				}
+				inKeys[ck] = true
+				viaClosure[ck] = true
+				keys = append(keys, ck)
+			}
+		}
 		frByKey[calleeShort(k)] = fr
 		if fr.Assumed {
 			assumedContracts = append(assumedContracts, calleeShort(k))
@@ -169,6 +195,17 @@ func cmdCheck(args []string) {
 		cfn := eng.cs.Funcs[k]
 		viaClause := cfn != nil && !hasProp(cfn.Props, *prop)
 		for _, o := range fr.Obls {
+			if viaClosure[k] {
+				// a finding recorded against this callee is reported by the check of its own property
+				if knownAnywhere[o.Name()] {
+					closureSkipped = append(closureSkipped, o.Name())
+					n++
+					continue
+				}
+				allObls = append(allObls, o)
+				n++
+				continue
+			}
 			if hasProp(o.Props, *prop) || (viaClause && strings.Join(o.Props, " ") == strings.Join(cfn.Props, " ")) {
 				allObls = append(allObls, o)
 				n++
@@ -433,6 +470,8 @@ func cmdCheck(args []string) {
 		"checker_cmd":              "/verif/bin/govc " + strings.Join(os.Args[1:], " "),
 		"trusted_base":             trusted,
 		"functions_under_contract": funcsUnder,
+		"functions_added_by_callee_closure": closureFns(viaClosure),
+		"closure_obligations_left_to_their_own_property": nonNil(closureSkipped),
 		"by_backend":               byBackend,
 		"solver_time_s":            round3(solverTime),
 		"queries":                  len(rs),
@@ -696,3 +735,13 @@ func (e *Engine) checkLacks(prop string) (names []string, fails []string) {
 
 var propExplanation = map[string]string{}
 var propAssumptions = map[string][]string{}
+
+// closureFns lists the functions that are part of a check only because a selected function relies on their contract.
+func closureFns(m map[string]bool) []string {
+	out := []string{}
+	for k := range m {
+		out = append(out, calleeShort(k))
+	}
+	sort.Strings(out)
+	return out
+}
